@@ -79,7 +79,11 @@ func catalogue(form string) []corruption {
 	case "cli-topranking":
 		out = append(out, corruption{"cli_query_suffix", "", ""}, corruption{"cli_target_suffix", "", ""}, corruption{"cli_no_reference", "", ""}, corruption{"cli_no_size", "", ""}, corruption{"cli_missing_file", "", ""})
 	case "cli-toma":
-		out = append(out, corruption{"cli_window_start_gt_end", "", ""}, corruption{"cli_old_and_new_flags", "", ""}, corruption{"cli_missing_file", "", ""}, corruption{"empty_file", "cli", ""})
+		out = append(out, corruption{"cli_window_start_gt_end", "", ""}, corruption{"cli_old_and_new_flags", "", ""}, corruption{"cli_missing_file", "", ""}, corruption{"empty_file", "cli", ""},
+			corruption{"cli_window_start_zero", "", ""}, corruption{"cli_window_end_zero", "", ""}, corruption{"cli_window_end_beyond", "", ""})
+	case "cli-topa-stdout":
+		out = append(out, corruption{"cli_window_start_gt_end", "", ""}, corruption{"cli_missing_file", "", ""}, corruption{"empty_file", "cli", ""},
+			corruption{"cli_window_start_zero", "", ""}, corruption{"cli_window_end_zero", "", ""}, corruption{"cli_window_end_beyond", "", ""})
 	}
 	return out
 }
@@ -93,7 +97,7 @@ func argIndex(a []string, flag string) int {
 	return -1
 }
 
-var c18Forms = append(append([]string{}, allCmds...), "topranking-csv", "cli-variants", "cli-samvariants", "cli-topranking", "cli-toma")
+var c18Forms = append(append([]string{}, allCmds...), "topranking-csv", "cli-variants", "cli-samvariants", "cli-topranking", "cli-toma", "cli-topa-stdout")
 
 type fastaRec struct {
 	head string
@@ -350,6 +354,27 @@ func applyCorruption(c *Case, k corruption, r *Rand) *Case {
 		}
 		e := r.Range(1, L-1)
 		out.Opts.Args = append(append([]string(nil), stripFlags(c.Opts.Args, "--start", "--end")...), "--start", fmt.Sprint(r.Range(e+1, L)), "--end", fmt.Sprint(e))
+	case "cli_window_start_zero", "cli_window_end_zero", "cli_window_end_beyond":
+		L := samRefLen(&Case{Files: map[string]string{"sam": c.Files["in.sam"]}})
+		if L < 2 {
+			return nil
+		}
+		a := append([]string(nil), stripFlags(c.Opts.Args, "--start", "--end")...)
+		switch k.Kind {
+		case "cli_window_start_zero":
+			a = append(a, "--start", "0")
+			if r.Bool() {
+				a = append(a, "--end", fmt.Sprint(r.Range(1, L)))
+			}
+		case "cli_window_end_zero":
+			a = append(a, "--end", "0")
+			if r.Bool() {
+				a = append(a, "--start", fmt.Sprint(r.Range(1, L)))
+			}
+		default:
+			a = append(a, "--end", fmt.Sprint(L+1))
+		}
+		out.Opts.Args = a
 	case "cli_old_and_new_flags":
 		out.Opts.Args = append(append([]string(nil), stripFlags(c.Opts.Args, "--start", "--end")...), "--start", "1", "--trimend", "2")
 	default:
